@@ -6,6 +6,7 @@ import (
 	"fmt"
 	"math/rand/v2"
 	"net"
+	"reflect"
 	"runtime/pprof"
 	"strings"
 	"sync"
@@ -237,6 +238,7 @@ func runCase(r *mon.Rec, famName string, idx int) {
 	}
 	var mu sync.Mutex
 	var recs []*hrec
+	nilCalls := 0 // handler invocations with a nil message (the servers hand over what the decoder returned together with an error)
 	endCh := make(chan struct{})
 	active := 0 // handlers currently running (guarded by mu; a WaitGroup would be misused: Add concurrent with Wait)
 	plan := map[int]string{}
@@ -309,6 +311,12 @@ func runCase(r *mon.Rec, famName string, idx int) {
 	}
 	if v6 {
 		srv, err := server6.NewServer("", nil, func(c net.PacketConn, peer net.Addr, m dhcpv6.DHCPv6) {
+			if m == nil || reflect.ValueOf(m).IsNil() {
+				mu.Lock()
+				nilCalls++
+				mu.Unlock()
+				return
+			}
 			nonce := 0
 			if im, e := m.GetInnerMessage(); e == nil {
 				if o := im.GetOneOption(65001); o != nil && len(o.ToBytes()) == 4 {
@@ -324,6 +332,12 @@ func runCase(r *mon.Rec, famName string, idx int) {
 		go func() { serveErr = srv.Serve(); close(serveDone) }()
 	} else {
 		srv, err := server4.NewServer("", nil, func(c net.PacketConn, peer net.Addr, m *dhcpv4.DHCPv4) {
+			if m == nil {
+				mu.Lock()
+				nilCalls++
+				mu.Unlock()
+				return
+			}
 			nonce := 0
 			if v := m.Options.Get(dhcpv4.GenericOptionCode(224)); len(v) == 4 {
 				nonce = int(binary.BigEndian.Uint32(v))
@@ -425,17 +439,28 @@ func runCase(r *mon.Rec, famName string, idx int) {
 			expect[items[i].nonce] = &items[i]
 		}
 	}
-	for dl := time.Now().Add(10 * time.Second); time.Now().Before(dl); {
+	for dl := time.Now().Add(10 * time.Second); ; {
 		mu.Lock()
 		n := len(recs)
 		mu.Unlock()
 		if n >= nvalid {
 			break
 		}
+		if !time.Now().Before(dl) {
+			stopShard = true // the missing dispatch is reported below; do not pay this wait again for every further case
+			break
+		}
 		time.Sleep(200 * time.Microsecond)
 	}
 	close(endCh)
 	waitHandlers()
+	mu.Lock()
+	nc := nilCalls
+	mu.Unlock()
+	if nc > 0 {
+		bad("handler-for-undecodable", "handler invoked %d times with a nil message (%d of the %d datagrams fed were undecodable)", nc, nbad(fed), fed)
+		return
+	}
 	// what Serve returns is not part of C14 (only when it returns): observed, not judged
 	switch {
 	case serveErr == nil:
